@@ -14,6 +14,7 @@
 #include <nix/Platform.hpp>
 #include <nix/types.hpp>
 
+#include <cmath>
 #include <limits>
 #include <type_traits>
 #include <cstddef>
@@ -154,7 +155,8 @@ template<typename T>
 inline typename std::enable_if<std::is_integral<T>::value, double>::type
 converts_to_double(T num, const std::string &msg_if_fail) {
     double dbl = static_cast<double>(num);
-    if (static_cast<T>(dbl) != num) {
+    // converting back is only defined for values below 2^digits (the largest integers round up to it)
+    if (dbl >= std::ldexp(1.0, std::numeric_limits<T>::digits) || static_cast<T>(dbl) != num) {
         throw OutOfBounds(msg_if_fail);
     }
     return dbl;
